@@ -363,6 +363,62 @@ def dfs(chk, pool, bound, maxruns):
   chk.log('%d schedules of reader/writer threads explored' % total)
 
 
+def expiry_probe(_):
+  """the deadline of the thread that holds the reader role expires exactly between the header and the payload of
+  a WRTE addressed to another stream: that message is still routed and acknowledged ("without loss", "every
+  device WRTE is acknowledged by exactly one OKAY"); only the caller's own read may time out"""
+  sys.argv = sys.argv[:1]
+  from checks import muxlib
+  from vf import sched, usbfake
+  box = dict(bad=[])
+
+  def main():
+    ap, to = usbfake.adb_protocol, usbfake.timeouts
+    dev = muxlib.Device(4096)
+    conn = ap.AdbConnection.connect(dev, timeout_ms=5000)
+    dev.open_reply = 'OKAY'
+    s1 = conn.open_stream('shell:1', timeout_ms=5000)
+    s2 = conn.open_stream('shell:2', timeout_ms=5000)
+    deadline = to.PolledTimeout.from_millis(60000)
+    hdr2 = usbfake.frame('WRTE', 102, dev.lids[2], 'two')
+    dev.rx += hdr2 + usbfake.frame('WRTE', 101, dev.lids[1], 'one')
+    orig_read = dev.read
+
+    def read(length, timeout_ms=None):
+      chunk = orig_read(length, timeout_ms)
+      if chunk == hdr2[0]:
+        deadline.expire()
+      return chunk
+    dev.read = read
+    got = {}
+    try:
+      got['s1.first'] = ('read', s1.read(timeout_ms=deadline))
+    except Exception as e:  # pylint: disable=broad-except
+      got['s1.first'] = ('raised', type(e).__name__)
+    for name, st in (('s2', s2), ('s1', s1)):
+      try:
+        got[name] = ('read', st.read(timeout_ms=1000))
+      except Exception as e:  # pylint: disable=broad-except
+        got[name] = ('raised', type(e).__name__)
+    acks = sorted((m[1], m[2]) for m in dev.tx if m[0] == 'OKAY')
+    want_acks = sorted([(dev.lids[1], 101), (dev.lids[2], 102)])
+    if got['s2'] != ('read', 'two'):
+      box['bad'].append('a WRTE for another stream whose header was read as the reading thread\'s deadline expired is lost: '
+                        'that stream\'s read gives %s' % (got['s2'],))
+    s1_data = ''.join(v[1] for k, v in got.items() if k.startswith('s1') and v[0] == 'read')
+    if s1_data != 'one':
+      box['bad'].append('the stream whose reader timed out between header and payload of another stream\'s message '
+                        'does not obtain its own data afterwards (%r)' % (got,))
+    if acks != want_acks:
+      box['bad'].append('device WRTEs acknowledged by %s, expected %s' % (acks, want_acks))
+  s = sched.Sched(max_steps=100000)
+  try:
+    s.run(main)
+  except (sched.Deadlock, sched.StepBudget) as e:
+    return ['expiry probe: reads never return (%s)' % type(e).__name__]
+  return box['bad']
+
+
 def main(chk):
   design(chk)
   quick = chk.tier == 'quick'
@@ -373,11 +429,16 @@ def main(chk):
       # read(n): partial reads of multi-symbol device messages, several messages buffered while a write waits for its ack
       emit_replay(chk, pool, 4, 4, 3, 2, [('a',)], streams=1, readlens='0, 1, 2', devseqs=(('a', 'b'), ('a',)))
       dfs(chk, pool, 1, 4000)
+      probe = pool.apply(expiry_probe, (0,))
     else:
       emit_replay(chk, pool, 4, 4, 2, 2, [('a',), ('a', 'b', 'a')])
       emit_replay(chk, pool, 5, 5, 1, 1, [('a', 'b', 'a', 'b', 'a')], illegal='"CNXN", "OPEN"', streams=3)
       emit_replay(chk, pool, 4, 4, 3, 3, [('a',)], streams=1, readlens='0, 1, 2, 3', devseqs=(('a', 'b'), ('a',), ('b', 'b', 'a')))
       dfs(chk, pool, 2, 60000)
+      probe = pool.apply(expiry_probe, (0,))
+    for sig in probe:
+      chk.violation(sig, dict(scenario='deadline between header and payload'))
+    chk.traces += 1
   chk.cov['rule'] = ('mux histories: host operations interleaved with device messages over 2-3 streams, enumerated by '
                      'TLC; schedules: every interleaving with <= 1 (quick) / 2 (thorough) preemptions of reader/writer '
                      'threads in three scenarios, with and without timeouts; every history/schedule is distinct')
